@@ -118,6 +118,14 @@ Section InjectProofs.
     - intros [Hc [v Hv]]. rewrite (inject_accepts _ _ _ _ _ _ Hc), Hv. eexists. eexists. reflexivity.
   Qed.
 
+  Lemma inject_iff_and_refusal e c key values ty force :
+    ((exists rc e', inject of_stored e c key values ty force = Ok (rc, Some e')) <->
+     (valid_class e c = true /\ length values = x_mult e c /\ (has_key e key = false \/ force = true)) /\
+     exists v, convert_values values ty = Ok v) /\
+    (~ (valid_class e c = true /\ length values = x_mult e c /\ (has_key e key = false \/ force = true)) ->
+     inject of_stored e c key values ty force = Ok (1%Z, None)).
+  Proof. split; [exact (inject_changes_iff e c key values ty force) | exact (inject_refuses e c key values ty force)]. Qed.
+
   Lemma has_key_classification e key : has_key e key = true -> exists cc, classification e key = Some cc.
   Proof.
     unfold has_key, classification. intros H. apply existsb_exists in H as [x [Hin Hx]].
